@@ -8,7 +8,7 @@ from ..ref import ws as refws
 
 LEVEL = 'exploration'
 TECHNIQUE = 'runtime monitoring: ground-truth message lists through an independent RFC 6455 encoder, event-list oracle + payload alias monitor on the simulated socket'
-BUDGET_S = {'quick': 45, 'thorough': 240}
+BUDGET_S = {'quick': 60, 'thorough': 240}
 REQUIRED = {'all': ['oracle.compressed_connection_runs', 'oracle.messages_compared', 'oracle.alias_checks', 'exhaustive4.cases']}
 RULE = ('abstract message lists (ground truth) -> RFC 6455 reference encoder -> simulated socket -> real '
         'lomond event loop; oracle compares the yielded message events with the ground-truth list and '
